@@ -241,21 +241,20 @@ Qed.
 
 Section Resume.
   Variable hdrdec : bytes -> option (list bytes * N).
-  (* OpenReadWrite on arbitrary bytes: the version probe's header buffer is within the DEFAULT header
-     limit, the payload header buffer within the configured one, every CID digest buffer within
-     go-cid's constant *)
+  (* OpenReadWrite on arbitrary bytes: the version probe's and the payload header's buffer are within
+     the configured header limit, every CID digest buffer within go-cid's constant *)
   Theorem resume_allocs_bound k ct o roots file faults :
-    Forall (fun a => a <= default_maxh \/ a <= w_maxh o \/ a <= max_digest_alloc)
+    Forall (fun a => a <= w_maxh o \/ a <= max_digest_alloc)
            (resume_allocs hdrdec k ct o roots file faults).
   Proof.
     unfold resume_allocs. apply Forall_app. split.
     { eapply Forall_weaken; [|apply ld_read_allocs_bound]. cbn. intros; lia. }
-    destruct (read_header hdrdec default_maxh file) as [[[[rs ver] rest] used]|]; [|constructor].
+    destruct (read_header hdrdec (w_maxh o) file) as [[[[rs ver] rest] used]|]; [|constructor].
     destruct (negb _); [constructor|].
     match goal with |- context [match ?p with Ok _ => _ | Err _ => _ end] => destruct p as [hin|] end; [|constructor].
     apply Forall_app. split.
     { eapply Forall_weaken; [|apply ld_read_allocs_bound]. cbn. intros; lia. }
-    destruct (read_header hdrdec (w_maxh o) _) as [[[[hroots hver] rest'] used']|]; [|constructor].
+    destruct (read_header hdrdec (w_maxh o) (drop (data_base o) file)) as [[[[hroots hver] rest'] used']|]; [|constructor].
     destruct (negb (header_matches hroots hver roots)); [constructor|].
     match goal with |- context [let '(_, _) := ?p in _] => destruct p as [dv2 ok2] end.
     destruct (negb ok2); [constructor|].
